@@ -52,8 +52,30 @@ pub enum Op {
     Enable,
 }
 
+/// the switch inside a real connection: what the client sends right behind its Encryption Response
+/// (already encrypted, in the same segment) without waiting for Login Success, and how the transport
+/// chunks the server's reads and accepts its writes
 #[derive(Clone, Debug, Serialize, Deserialize)]
-pub struct Case {
+pub struct ConnCase {
+    /// 1 = Login Acknowledged, 2 = + Client Information, 3 = + a plugin message and a keep-alive echo in between
+    pub pipeline: u8,
+    pub intent: i32,
+    pub with_secret: bool,
+    pub rchunks: Vec<u16>,
+    pub wsteps: Vec<crate::sim::WStep>,
+    pub plugin_len: u16,
+    pub select_seed: u64,
+}
+
+#[derive(Clone, Debug, Serialize, Deserialize)]
+#[serde(untagged)]
+pub enum Case {
+    Stream(StreamCase),
+    Conn(ConnCase),
+}
+
+#[derive(Clone, Debug, Serialize, Deserialize)]
+pub struct StreamCase {
     #[serde(with = "hexbytes")]
     pub secret: Vec<u8>,
     pub ops: Vec<Op>,
@@ -144,8 +166,102 @@ type Stream = CipherStream<Scripted, Aes128Cfb8Enc, Aes128Cfb8Dec>;
 
 pub struct C05;
 
+/// Runs the same login twice through the real `Connection`: once like a vanilla client (waits for Login
+/// Success), once with the first encrypted frames sent right behind the Encryption Response and with
+/// scripted read chunking / write acceptance. Everything is instant, so the traces must be equal.
+fn conn_switch(c: &ConnCase) -> (Verdict, CaseInfo) {
+    use crate::refcodec::Pkt;
+    use crate::sim::{self, AdapterScript, ConnCfg, EncResp, TargetSpec, TransportScript};
+    let cfg = ConnCfg { secret: c.with_secret.then(|| b"switch".to_vec()), ..Default::default() };
+    let adapters = AdapterScript { discovery: Some(vec![TargetSpec { identifier: "t".into(), addr: "192.0.2.9:25565".into(), meta: Default::default() }]), ..Default::default() };
+    let run = |pipeline: u8, transport: &TransportScript| {
+        let plugin_len = c.plugin_len;
+        let intent = c.intent;
+        sim::run_sim(
+            &cfg,
+            &adapters,
+            transport,
+            c.select_seed,
+            2000,
+            crate::client_fn!(|cl| {
+                let secret16: [u8; 16] = *b"switchswitchswit";
+                cl.send(&Pkt::Handshake { protocol: 770, host: "switch.example.org".into(), port: 25565, next: intent });
+                cl.send(&Pkt::LoginStart { name: "Switch".into(), uuid: uuid::Uuid::from_u128(5) });
+                let tail = |cl: &mut sim::Client, from: u8| {
+                    // frames of the configuration phase, in protocol order
+                    if from <= 1 {
+                        cl.send(&Pkt::LoginAck);
+                    }
+                    if pipeline >= 3 || from > 1 {
+                        let mut w = crate::refcodec::W::new();
+                        w.string("minecraft:brand").raw(&vec![0x61; plugin_len as usize]);
+                        cl.push(&crate::refcodec::frame(0x02, &w.0));
+                        cl.send(&Pkt::CfgKeepAliveSb { id: 77 });
+                    }
+                    cl.send(&sim::client_information("en_us"));
+                };
+                loop {
+                    match cl.next().await {
+                        Some((_, Pkt::LoginCookieRequest { key })) => cl.send(&Pkt::LoginCookieResponse { key, payload: None }),
+                        Some((_, Pkt::EncryptionRequest { .. })) => {
+                            let Some(resp) = cl.encryption_response(&EncResp::Honest, &secret16) else { return };
+                            cl.send(&resp);
+                            cl.enable_encryption(&secret16);
+                            if pipeline >= 1 {
+                                // already encrypted, in the same segment as the Encryption Response
+                                cl.send(&Pkt::LoginAck);
+                                if pipeline >= 2 {
+                                    tail(cl, 2);
+                                }
+                            }
+                        }
+                        Some((_, Pkt::LoginSuccess { .. })) => {
+                            if pipeline == 0 {
+                                cl.send(&Pkt::LoginAck);
+                                tail(cl, 2);
+                            } else if pipeline == 1 {
+                                tail(cl, 2);
+                            }
+                        }
+                        Some((_, Pkt::CfgTransfer { .. } | Pkt::CfgDisconnect { .. })) => {
+                            while cl.next().await.is_some() {}
+                            return;
+                        }
+                        Some(_) => {}
+                        None => return,
+                    }
+                }
+            }),
+        )
+    };
+    let base = run(0, &TransportScript::default());
+    let var = run(c.pipeline.clamp(1, 3), &TransportScript { wscript: c.wsteps.clone(), rscript: c.rchunks.clone() });
+    let mut info = CaseInfo::new(true, vec!["switch_inside_real_connection".into(), format!("pipelined_frames:{}", c.pipeline.clamp(1, 3))]);
+    if var.write_disturbed {
+        info.class("encrypted_write_partial_or_pending");
+    }
+    use crate::checks::c08::{call_view, cb_view};
+    if let sim::ServerEnd::Panicked { msg } = &var.end {
+        return (Verdict::Fail { sig: "panic".into(), msg: format!("handler panicked: {msg}") }, info);
+    }
+    if var.stream_broken.is_some() || var.cb_leftover != 0 {
+        return (Verdict::Fail { sig: "clientbound-stream-not-one-cfb8-stream".into(), msg: format!("the client cannot decrypt what the server sent after the switch: {:?}, {} stray bytes", var.stream_broken, var.cb_leftover) }, info);
+    }
+    let (a, b) = (cb_view(&base, false), cb_view(&var, false));
+    if a != b || call_view(&base, false) != call_view(&var, false) || base.returned_ok() != var.returned_ok() {
+        return (
+            Verdict::Fail {
+                sig: "bytes-behind-the-switch-not-decrypted".into(),
+                msg: format!("the client sent its first encrypted frames in the same segment as the Encryption Response: packets {b:?} (end {}), a client that waits for Login Success gets {a:?} (end {})", var.end_label(), base.end_label()),
+            },
+            info,
+        );
+    }
+    (Verdict::Pass, info)
+}
+
 /// returns (sig,msg) on failure
-fn execute(case: &Case) -> (Result<(), (String, String)>, CaseInfo) {
+fn execute(case: &StreamCase) -> (Result<(), (String, String)>, CaseInfo) {
     let mut info = CaseInfo::default();
     let secret: [u8; 16] = match case.secret.as_slice().try_into() {
         Ok(s) => s,
@@ -400,7 +516,7 @@ impl Check for C05 {
             1 => Just(RStep::Chunk(u16::MAX)),
             2 => Just(RStep::Pending),
         ];
-        (
+        let stream = (
             proptest::collection::vec(any::<u8>(), 16..=16),
             proptest::collection::vec(op_strategy(), 1..max_ops),
             proptest::collection::vec(w, 0..40),
@@ -415,14 +531,24 @@ impl Check for C05 {
                     let i = crate::runner::idx(at, ops.len() + 1);
                     ops.insert(i, Op::Enable);
                 }
-                Case { secret, ops, wscript, rscript, inbound }
+                Case::Stream(StreamCase { secret, ops, wscript, rscript, inbound })
             })
-            .boxed()
+            .boxed();
+        let wstep = prop_oneof![2 => Just(crate::sim::WStep::All), 3 => (1u16..20).prop_map(crate::sim::WStep::Prefix), 2 => Just(crate::sim::WStep::PendingWake)];
+        let conn = (1u8..=3, prop_oneof![Just(2i32), Just(3i32)], any::<bool>(), prop_oneof![1 => Just(Vec::new()), 3 => proptest::collection::vec(prop_oneof![3 => 1u16..8, 1 => Just(0u16), 2 => 8u16..400], 1..60)], proptest::collection::vec(wstep, 0..30), 0u16..300, any::<u64>())
+            .prop_map(|(pipeline, intent, with_secret, rchunks, wsteps, plugin_len, select_seed)| Case::Conn(ConnCase { pipeline, intent, with_secret, rchunks, wsteps, plugin_len, select_seed }))
+            .boxed();
+        let conn_weight = 1u32;
+        prop_oneof![12 => stream, conn_weight => conn].boxed()
     }
     fn cases(&self, tier: Tier) -> u64 {
         tier.pick(60_000, 2_000_000)
     }
     fn run(&self, case: &Case) -> (Verdict, CaseInfo) {
+        let case = match case {
+            Case::Stream(s) => s,
+            Case::Conn(c) => return conn_switch(c),
+        };
         let (r, info) = execute(case);
         match r {
             Ok(()) => (Verdict::Pass, info),
